@@ -461,8 +461,11 @@ def gen_exp_case(r, tier):
             ops.append({"op": "crash_in_step", "j": r.randint(0, 3 * n)})
         ops.append({"op": "sample", "n": n})
         left -= n
-        if r.random() < 0.12:
-            ops.append({"op": "warmup", "n": r.randint(1, 8)})     # tuning resumed in the middle of the run
+        # NOTE: no warm-up phase is generated after the sampling phase has begun.  A first version did (it is how the
+        # interpreter came to model timelines), and reported that warm-up *resumed after a restore* differs from the
+        # uninterrupted run (NUTS: _mu is not a state key; MH/CWMH/PCN: tune() reads the acceptance *history*, which
+        # checkpoints do not contain by design).  C14 quantifies over checkpoints in the sampling phase "with and
+        # without prior warm-up"; tuning after a restore is outside it, so those reports were false alarms of the check.
         y = r.random()
         if y < 0.45:
             if r.random() < 0.2:
